@@ -228,3 +228,191 @@ Proof.
   rewrite (u64_sm (n * ts)) by nia. rewrite (u64_sm r) by lia. rewrite (u64_sm (r * (n * ts))) by nia.
   rewrite s32_sm by (unfold B31 in *; nia). rewrite Z.sub_0_r. repeat split; reflexivity.
 Qed.
+
+(* ---------- the LOOP of sc_allgather_alltoall, iteration by iteration -------------------------------------------------------------
+   a2a_iter is ONE ITERATION of the loop body translated as a block: (Irecv called?, its 7 arguments, Isend called?, its 7 arguments,
+   stop); a2a_loop_init / a2a_loop_cond / a2a_loop_step are the loop header; a2a_null_recv_slot / a2a_null_send_slot the two request
+   slots that the skip branch sets to sc_MPI_REQUEST_NULL.  The loop is re-assembled here from these generated pieces (loop_js: the
+   values j takes; iter_recv_call / iter_send_call: the calls of iteration j as (byte offset from data, bytes, peer, tag);
+   iter_recv_slot / iter_send_slot: the request slots iteration j fills) and proved equal to the model's message lists. *)
+Lemma map_filter_flat {A B} (F : A -> B) (p : A -> bool) l :
+  map F (filter p l) = flat_map (fun x => if p x then [F x] else []) l.
+Proof. induction l as [|a l IH]; cbn; [reflexivity|]. destruct (p a); cbn; rewrite IH; reflexivity. Qed.
+Lemma flat_map_map {A B C} (h : B -> list C) (k : A -> B) l : flat_map h (map k l) = flat_map (fun x => h (k x)) l.
+Proof. induction l as [|a l IH]; cbn; [reflexivity|]. rewrite IH. reflexivity. Qed.
+Lemma flat_map_ext_in {A B} (f g : A -> list B) l : (forall x, In x l -> f x = g x) -> flat_map f l = flat_map g l.
+Proof.
+  induction l as [|a l IH]; intros H; cbn; [reflexivity|]. rewrite (H a) by (left; reflexivity).
+  rewrite IH by (intros x Hx; apply H; right; exact Hx). reflexivity.
+Qed.
+
+Section A2ALoop.
+  Variables g base r sz tall data request comm byte ret1 ret2 : Z.
+  Hypothesis Hb : 0 <= base.
+  Hypothesis Hr : base <= r < base + g.
+  Hypothesis Hsz : 0 <= sz.
+  Hypothesis Hbytes : g * sz < B31.
+  Hypothesis Hranks : base + 2 * g < B31.
+  Let o := r - base.
+
+  Definition a2a_iter_at (j : Z) := a2a_iter j o r sz g data request comm byte tall ret1 ret2.
+
+  (* what one iteration does, for EVERY value of j the loop takes: nothing for the own offset; otherwise one Irecv into slot j from
+     rank base + j and one Isend of the own slot to the same rank, sz bytes of sc_MPI_BYTE with the all-to-all tag on the communicator,
+     requests j and groupsize + j; the body never leaves the loop (stop = 0) *)
+  Lemma gen_a2a_iter j : 0 <= j < g ->
+    a2a_iter_at j =
+    if j =? o then (0, 0, 0, 0, 0, 0, 0, 0, 0, 0, 0, 0, 0, 0, 0, 0, 0)
+    else (1, data + j * sz, sz, u32 byte, base + j, tall, comm, request + j,
+          1, data + o * sz, sz, u32 byte, base + j, tall, comm, request + g + j, 0).
+  Proof.
+    intros Hj. unfold a2a_iter_at, a2a_iter. cbv zeta. destruct (j =? o); [reflexivity|].
+    s32s ltac:(unfold B31 in *; subst o; nia). subst o. tup; try reflexivity; lia.
+  Qed.
+
+  Definition iter_recv_call (j : Z) : list (Z * Z * Z * Z) :=
+    let '(rc, r0, r1, _, r3, r4, _, _, _, _, _, _, _, _, _, _, _) := a2a_iter_at j in
+    if rc =? 1 then [(r0 - data, r1, r3, r4)] else [].
+  Definition iter_send_call (j : Z) : list (Z * Z * Z * Z) :=
+    let '(_, _, _, _, _, _, _, _, sc, s0, s1, _, s3, s4, _, _, _) := a2a_iter_at j in
+    if sc =? 1 then [(s0 - data, s1, s3, s4)] else [].
+  (* the request slot filled in iteration j: by the call, or with sc_MPI_REQUEST_NULL in the skip branch *)
+  Definition iter_recv_slot (j : Z) : Z :=
+    let '(rc, _, _, _, _, _, _, r6, _, _, _, _, _, _, _, _, _) := a2a_iter_at j in
+    if rc =? 1 then r6 - request else a2a_null_recv_slot j g.
+  Definition iter_send_slot (j : Z) : Z :=
+    let '(_, _, _, _, _, _, _, _, sc, _, _, _, _, _, _, s6, _) := a2a_iter_at j in
+    if sc =? 1 then s6 - request else a2a_null_send_slot j g.
+  Definition iter_stop (j : Z) : Z :=
+    let '(_, _, _, _, _, _, _, _, _, _, _, _, _, _, _, _, st) := a2a_iter_at j in st.
+  Definition iter_types (j : Z) : Z * Z * Z * Z :=
+    let '(_, _, _, r2, _, _, r5, _, _, _, _, s2, _, _, s5, _, _) := a2a_iter_at j in (r2, r5, s2, s5).
+
+  (* the values of j: the generated header run with fuel *)
+  Fixpoint loop_js (fuel : nat) (j : Z) : list Z :=
+    match fuel with
+    | O => []
+    | S f => if a2a_loop_cond j g then j :: loop_js f (a2a_loop_step j) else []
+    end.
+
+  Lemma loop_js_from : forall fuel j, 0 <= j <= g -> (Z.to_nat (g - j) < fuel)%nat ->
+    loop_js fuel j = map Z.of_nat (seq (Z.to_nat j) (Z.to_nat (g - j))).
+  Proof.
+    induction fuel as [|f IH]; intros j Hj Hf; [lia|]. cbn [loop_js]. unfold a2a_loop_cond.
+    destruct (Z.ltb_spec j g) as [Hlt|Hge].
+    - unfold a2a_loop_step. cbv zeta. rewrite s32_sm by (unfold B31 in *; lia).
+      rewrite IH by lia. replace (Z.to_nat (g - j)) with (S (Z.to_nat (g - (j + 1)))) by lia.
+      cbn [seq map]. rewrite Z2Nat.id by lia. f_equal. f_equal. f_equal. lia.
+    - replace (g - j) with 0 by lia. reflexivity.
+  Qed.
+
+  Lemma gen_loop_js : loop_js (S (Z.to_nat g)) a2a_loop_init = map Z.of_nat (seq 0 (Z.to_nat g)).
+  Proof.
+    unfold a2a_loop_init. rewrite loop_js_from by lia. rewrite Z.sub_0_r. reflexivity.
+  Qed.
+
+  Lemma iter_recv_call_eq j : 0 <= j < g ->
+    iter_recv_call j = if negb (j =? o) then [(j * sz, sz, base + j, tall)] else [].
+  Proof.
+    intros Hj. unfold iter_recv_call. rewrite gen_a2a_iter by exact Hj. destruct (j =? o); cbn; [reflexivity|].
+    f_equal. tup; try reflexivity; lia.
+  Qed.
+  Lemma iter_send_call_eq j : 0 <= j < g ->
+    iter_send_call j = if negb (j =? o) then [(o * sz, sz, base + j, tall)] else [].
+  Proof.
+    intros Hj. unfold iter_send_call. rewrite gen_a2a_iter by exact Hj. destruct (j =? o); cbn; [reflexivity|].
+    f_equal. tup; try reflexivity; lia.
+  Qed.
+
+  (* MODEL = GENERATED LOOP: the receives (sends) of the model's all-to-all window are the Irecv (Isend) calls of the generated
+     iterations over the generated sequence of j, in posting order *)
+  Lemma gen_loop_recvs :
+    map (as_call sz base 0 0 0 tall) (recvs_a2a g base r) = flat_map iter_recv_call (loop_js (S (Z.to_nat g)) a2a_loop_init).
+  Proof.
+    rewrite gen_loop_js. unfold recvs_a2a. rewrite map_map, map_filter_flat, flat_map_map.
+    apply flat_map_ext_in. intros j Hj. apply in_seq in Hj. rewrite iter_recv_call_eq by lia.
+    replace (Z.of_nat j =? o) with (base + Z.of_nat j =? r) by (subst o; lia).
+    destruct (base + Z.of_nat j =? r); cbn [negb]; [reflexivity|].
+    unfold as_call. cbn [lo cnt peer mtag]. rewrite tagv_all. f_equal. tup; try reflexivity; lia.
+  Qed.
+  Lemma gen_loop_sends :
+    map (as_call sz base 0 0 0 tall) (sends_a2a g base r) = flat_map iter_send_call (loop_js (S (Z.to_nat g)) a2a_loop_init).
+  Proof.
+    rewrite gen_loop_js. unfold sends_a2a. rewrite map_map, map_filter_flat, flat_map_map.
+    apply flat_map_ext_in. intros j Hj. apply in_seq in Hj. rewrite iter_send_call_eq by lia.
+    replace (Z.of_nat j =? o) with (base + Z.of_nat j =? r) by (subst o; lia).
+    destruct (base + Z.of_nat j =? r); cbn [negb]; [reflexivity|].
+    unfold as_call. cbn [lo cnt peer mtag]. rewrite tagv_all. f_equal. subst o. tup; try reflexivity; lia.
+  Qed.
+
+  (* REQUEST SLOTS: iteration j fills slot j (Irecv, or NULL for the own offset) and slot groupsize + j (Isend, or NULL); over the
+     loop these are the slots 0 .. g-1 and g .. 2g-1, each once, and 2g requests are waited for.  Both calls of an iteration use
+     the same datatype and communicator, and no iteration leaves the loop *)
+  Lemma gen_loop_slots :
+    let js := loop_js (S (Z.to_nat g)) a2a_loop_init in
+    map iter_recv_slot js = map Z.of_nat (seq 0 (Z.to_nat g)) /\
+    map iter_send_slot js = map (fun j => g + Z.of_nat j) (seq 0 (Z.to_nat g)) /\
+    a2a_wait_count g = 2 * g /\
+    (forall j, In j js -> iter_stop j = 0 /\ (j <> o -> iter_types j = (u32 byte, comm, u32 byte, comm))).
+  Proof.
+    cbv zeta. rewrite gen_loop_js. split; [|split; [|split]].
+    - rewrite map_map. apply map_ext_in. intros j Hj. apply in_seq in Hj. unfold iter_recv_slot.
+      rewrite gen_a2a_iter by lia. destruct (Z.of_nat j =? o); cbn; [reflexivity|lia].
+    - rewrite map_map. apply map_ext_in. intros j Hj. apply in_seq in Hj. unfold iter_send_slot.
+      rewrite gen_a2a_iter by lia. destruct (Z.of_nat j =? o); cbn.
+      + unfold a2a_null_send_slot. rewrite s32_sm by (unfold B31 in *; lia). reflexivity.
+      + lia.
+    - unfold a2a_wait_count. apply s32_sm. unfold B31 in *. lia.
+    - intros j Hj. apply in_map_iff in Hj. destruct Hj as [n [<- Hn]]. apply in_seq in Hn.
+      unfold iter_stop, iter_types. rewrite gen_a2a_iter by lia.
+      destruct (Z.eqb_spec (Z.of_nat n) o); cbn; split; try reflexivity; intros; try contradiction; reflexivity.
+  Qed.
+End A2ALoop.
+
+(* ---------- the WHOLE BODY of sc_allgather -------------------------------------------------------------------------------------------
+   top_body = (Comm_size called, its communicator, Comm_rank called, its communicator, memcpy called, destination, source, bytes,
+   sc_allgather_recursive called, its six arguments, return value).  With datasize = n * ts, P = what Comm_size stored, r = what
+   Comm_rank stored: both queries go to the communicator of the call; the own block (sendbuf, 1 * datasize bytes) is copied to slot r
+   of the group (P, 0): byte offset (r - 0) * datasize (model: upd _ me mine); then the recursion runs ONCE on the same communicator and
+   receive buffer for the group (P, 0) with offset r - 0 (model: ag_prog .. P 0 me); the function returns sc_MPI_SUCCESS.  Nothing
+   else is called. *)
+Lemma gen_top_body sendbuf recvbuf comm n n' ts P r sendtype recvtype ret1 ret2 succ :
+  0 <= n < B31 -> 0 <= ts -> n * ts < B31 -> 0 <= r < P -> P < B31 ->
+  top_body sendbuf n sendtype recvbuf n' recvtype comm ts ret1 ret2 P r succ =
+  (1, comm, 1, comm, 1, recvbuf + (r - 0) * (n * ts), sendbuf, 1 * (n * ts), 1, comm, recvbuf, n * ts, P, r - 0, r, succ).
+Proof.
+  intros Hn Ht Hb Hr Hp. assert (Hq : r * (n * ts) < 2 ^ 62) by (unfold B31 in *; nia). unfold top_body. cbv zeta.
+  assert (B31 < 2 ^ 62) by (unfold B31; reflexivity).
+  rewrite (u64_sm n) by lia. rewrite (u64_sm (n * ts)) by nia. rewrite (u64_sm r) by lia. rewrite (u64_sm (r * (n * ts))) by nia.
+  rewrite s32_sm by (unfold B31 in *; nia). tup; try reflexivity; lia.
+Qed.
+
+(* ---------- request slots of sc_allgather_recursive, allocation of sc_allgather_alltoall ---------------------------------------------
+   ag_req_slots lists, for the four paths through the exchange step (lower half with / without the extra send, unpaired rank of the
+   upper half, paired rank of the upper half), the literal slot numbers K of `request + K` (Irecv / Isend) and `request[K] = NULL`
+   in source order.  On every path exactly ag_wait_count slots are written and each of 0 .. ag_wait_count - 1 is among them: every
+   request that MPI_Waitall (3, request, ..) looks at has been set, none twice.  Stated so that a reordering inside a path is harmless. *)
+Definition slots_ok (n : Z) (p : list Z) : bool :=
+  (Z.of_nat (length p) =? n) && forallb (fun i => existsb (Z.eqb (Z.of_nat i)) p) (seq 0 (Z.to_nat n)).
+Lemma slots_ok_spec n p : slots_ok n p = true -> Z.of_nat (length p) = n /\ forall i, 0 <= i < n -> In i p.
+Proof.
+  unfold slots_ok. intros H. apply andb_prop in H. destruct H as [H1 H2]. split; [apply Z.eqb_eq; exact H1|].
+  intros i Hi. rewrite forallb_forall in H2. specialize (H2 (Z.to_nat i)). rewrite in_seq in H2.
+  specialize (H2 ltac:(lia)). apply existsb_exists in H2. destruct H2 as [x [Hx E]]. apply Z.eqb_eq in E.
+  rewrite Z2Nat.id in E by lia. subst x. exact Hx.
+Qed.
+Lemma gen_req_slots :
+  length ag_req_slots = 4%nat /\
+  Forall (fun p => Z.of_nat (length p) = ag_wait_count /\ forall i, 0 <= i < ag_wait_count -> In i p) ag_req_slots.
+Proof.
+  split; [reflexivity|]. apply Forall_forall. intros p Hp. apply slots_ok_spec.
+  assert (H : forallb (slots_ok ag_wait_count) ag_req_slots = true) by (vm_compute; reflexivity).
+  rewrite forallb_forall in H. apply H. exact Hp.
+Qed.
+
+(* sc_allgather_alltoall allocates exactly the requests it waits for (4 = sizeof (sc_MPI_Request) in the translated configuration) *)
+Lemma gen_a2a_alloc g : 0 <= g -> 2 * g < B31 -> a2a_alloc_bytes g = a2a_wait_count g * 4.
+Proof.
+  intros H0 H1. unfold a2a_alloc_bytes, a2a_wait_count. rewrite s32_sm by (unfold B31 in *; lia).
+  assert (4 * B31 < 2 ^ 62) by (unfold B31; reflexivity). rewrite (u64_sm (2 * g)) by lia. rewrite u64_sm by lia. reflexivity.
+Qed.
